@@ -120,3 +120,26 @@ func readAll(d EntryData) ([]byte, error) {
 }
 
 func bytesEq(a, b []byte) bool { return string(a) == string(b) }
+
+
+// vSecond / vSecondDone: the operation of a second request next to the operation under test.
+// Default (conc=0): it runs atomically at any one scheduling point of the main thread
+// (vInterpose).  With conc=n: it runs concurrently, every interleaving with at most n switches
+// to it is explored (vConcurrent), and it is joined afterwards.  vSecondDone reports whether the
+// two really overlapped / the second one ran in the middle.
+func vSecond(f func()) {
+	if n := vParam("conc", 0); n > 0 {
+		vConcurrent(f, n)
+		return
+	}
+	vInterpose(f, vParam("interpose", 1))
+}
+
+func vSecondDone() bool {
+	if vParam("conc", 0) > 0 {
+		vJoin()
+		return vInterposed() > 0
+	}
+	vInterpose(nil, 0)
+	return vInterposed() > 0
+}
